@@ -61,11 +61,16 @@ func (n *UnaryExpressionNode) String() string {
 
 	buff.WriteString(n.Op.FetchValue())
 
+	op := n.Op.FetchValue()
+	right := n.Right.String()
 	parens := ExpressionPrecedence(n) > ExpressionPrecedence(n.Right)
 	if parens {
 		buff.WriteRune('(')
+	} else if len(op) > 0 && len(right) > 0 && right[0] == op[len(op)-1] {
+		// keep `- -a`, `+ +a`, `<< <<a` from being lexed as `--`, `++`, `<<<`
+		buff.WriteRune(' ')
 	}
-	buff.WriteString(n.Right.String())
+	buff.WriteString(right)
 	if parens {
 		buff.WriteRune(')')
 	}
